@@ -129,10 +129,16 @@ func TestC07(t *testing.T) {
 		}
 		f := failedStates[i]
 		_, active := failedCanary(f.s)
-		// (0) failure-free closure
+		// (0) failure-free closure, started at once and started after the canary duration has elapsed
 		r := w.Closure(t, f.sc, f.s, w.ClosureOpts{OnStep: retention(f.sc, "no fault", f.s)})
 		run.Count("closures", 1)
 		c07CheckRollback(run, f.sc, f.s, active, "no fault", r)
+		if e := f.s.EDS("ns", "foo"); e.Spec.Strategy.Canary != nil && e.Spec.Strategy.Canary.Duration != nil && e.Spec.Strategy.Canary.Duration.Duration < time.Minute {
+			d := e.Spec.Strategy.Canary.Duration.Duration + 2*time.Second
+			r2 := w.Closure(t, f.sc, f.s, w.ClosureOpts{SkipJumps: true, StartDelay: d})
+			run.Count("closures", 1)
+			c07CheckRollback(run, f.sc, f.s, active, "no fault, first reconcile after the canary duration elapsed", r2)
+		}
 		// (1) every fault at every write of the rollback reconcile, incl. stop between the status and the spec write
 		base := w.Step(t, f.sc, f.s, w.Event{K: "R_eds", A: edsKey})
 		var writes []int
